@@ -39,6 +39,8 @@ func genLabelProg(t *rapid.T, mode int, org int64, withFar bool) Prog {
 		pos[i] = rapid.IntRange(0, n).Draw(t, fmt.Sprintf("lpos%d", i))
 	}
 	m16 := sem.ModeOf(mode) == 16
+	// one program in four changes the mode on the way (only where the caller decodes per statement)
+	switching := withFar && rapid.IntRange(0, 3).Draw(t, "switching") == 0
 	placeLabels := func(at int) {
 		for i, ps := range pos {
 			if ps == at {
@@ -49,6 +51,11 @@ func genLabelProg(t *rapid.T, mode int, org int64, withFar bool) Prog {
 	}
 	placeLabels(0)
 	for i := 1; i <= n; i++ {
+		if switching && rapid.IntRange(0, 3).Draw(t, "switchhere") == 0 {
+			mode = rapid.SampledFrom([]int{16, 32}).Draw(t, "newmode")
+			m16 = mode == 16
+			p.Items = append(p.Items, Item{Kind: ItDir, Text: fmt.Sprintf("[BITS %d]", mode), Cls: "bits"})
+		}
 		k := rapid.IntRange(0, 11).Draw(t, "kind")
 		lab := names[rapid.IntRange(0, nlabels-1).Draw(t, "ref")]
 		switch {
@@ -163,7 +170,7 @@ func checkLabelProg(pid string, p *Prog) Verdict {
 	src := p.Source()
 	r := asm.Assemble(src)
 	// the DW/DB truncation warning is by-spec (low bits are emitted; values are compared modulo the field width)
-	if d, cls := diagnosedC05(r, asm.Baseline(p.Header())); d {
+	if d, cls := diagnosedC05(r, asm.Baseline(p.BaselineSource())); d {
 		v.Skip = "diagnosed: " + cls
 		return v
 	}
@@ -177,6 +184,19 @@ func checkLabelProg(pid string, p *Prog) Verdict {
 	}
 	la := labelAddrs(p, offs)
 	mode := sem.ModeOf(p.Mode)
+	// the mode in force at every item ([BITS n] items change it)
+	modeAt := make([]int, len(p.Items))
+	switches := false
+	{
+		cur := mode
+		for i, it := range p.Items {
+			if it.Kind == ItDir && it.Cls == "bits" {
+				fmt.Sscanf(it.Text, "[BITS %d]", &cur)
+				switches = true
+			}
+			modeAt[i] = cur
+		}
+	}
 	org := p.Origin()
 	// 16-bit branches to labels that do not fit rel8 are sized short by pass 1 (known finding F08)
 	farBranch := ""
@@ -184,6 +204,9 @@ func checkLabelProg(pid string, p *Prog) Verdict {
 	fail := func(kind, cls string, f string, a ...any) Verdict {
 		v.Fail = fmt.Sprintf(f, a...) + "\n--- source ---\n" + src + fmt.Sprintf("--- output ---\n% x", out)
 		v.Sig = fmt.Sprintf("%s|%s|mode=%d|after=%s%s", pid, kind, mode, cls, farBranch)
+		if switches {
+			v.Sig += "|modeswitch"
+		}
 		// single-statement sweep programs name their statement, so that a recorded finding can be told apart
 		var only []string
 		for _, it := range p.Items {
@@ -196,13 +219,13 @@ func checkLabelProg(pid string, p *Prog) Verdict {
 		}
 		return v
 	}
-	for _, it := range p.Items {
+	for i, it := range p.Items {
 		if it.Kind != ItStmt || !strings.HasPrefix(it.RefAs, "br:") {
 			continue
 		}
 		at := org + int64(offs[it.Ser]) + 6
 		d := la[it.Ref] - at
-		if mode == 16 && it.RefAs != "br:CALL" && (d-2 < -128 || d-2 > 127) {
+		if modeAt[i] == 16 && it.RefAs != "br:CALL" && (d-2 < -128 || d-2 > 127) {
 			farBranch = "|far16branch"
 		}
 	}
@@ -219,7 +242,8 @@ func checkLabelProg(pid string, p *Prog) Verdict {
 	}
 	tableAt := -1
 	ti := 0
-	for _, it := range p.Items {
+	for i, it := range p.Items {
+		mode := modeAt[i]
 		if it.Kind == ItMarker && it.Name == "$table" {
 			tableAt = offs[it.Ser] + 6
 		}
